@@ -3,6 +3,7 @@ mod common;
 mod c04;
 mod c13;
 mod c14;
+mod c15;
 mod c16;
 mod c23;
 mod c25;
@@ -25,6 +26,7 @@ fn main() {
         "c14-cose" => c14::cose(rest),
         "c14-datahash" => c14::datahash(rest),
         "c14-e2e" => c14::e2e(rest),
+        "c15-replay" => c15::replay(rest),
         "c16-record" => c16::record(rest),
         "c23-record" => c23::record(rest),
         "c25-record" => c25::record(rest),
